@@ -208,4 +208,16 @@ theorem cexLast_inv : Inv cexLast := by
     subst hx
     decide
 
+/-- hence the requested statement without the extra hypothesis is false of the model -/
+theorem replaceLast_view_unconditional_false :
+    ¬ (∀ (s : St Unit) (b : String) (m : Meta) (es : List (Ev Unit)) (e : Ev Unit), Inv s →
+        view s b = some (m, es) → es ≠ [] →
+        ∃ t, Spec.IsNewest es t ∧ getEvents s b 1 none none = [t] ∧
+          view (replaceLast s b e) = Spec.replaceId (view s) b (t.id.getD 0) e) := by
+  intro h
+  obtain ⟨t, _, h2, _⟩ := h cexLast "a" default _ ⟨none, 0, 0, ()⟩ cexLast_inv
+    replaceLast_read_counterexample.1 (by simp)
+  rw [replaceLast_read_counterexample.2] at h2
+  cases h2
+
 end Aw.Store.Sqlite
